@@ -535,7 +535,7 @@ def run(ctx):
         ctx.hit("corpus")
         rerun(ctx, c["input"])
     ms = tiny()
-    for rep in range(ctx.n(1, 8)):
+    for rep in range(ctx.n(1, 20)):
         ms += meshes.zoo(rng, big=False)
     if ctx.thorough or ctx.escalate:
         ms += meshes.zoo(rng, big=True)[-4:]
